@@ -121,11 +121,23 @@ func dumpSettle(c *Chain) []string {
 
 func runSettleHist(t *testing.T, in []string) string {
 	nv, _ := strconv.Atoi(in[0])
-	c, err := NewChain(ChainCfg{NVals: nv, NAccts: 7, Mutate: func(c *Chain, gs map[string]json.RawMessage) {
+	cfg := ChainCfg{NVals: nv, NAccts: 7}
+	if len(in) > 3 { // optional: validator cap and genesis tokens per validator
+		if m, err := strconv.Atoi(in[2]); err == nil && m > 0 {
+			cfg.MaxValidators = uint32(m)
+		}
+		for _, t := range strings.Split(in[3], ",") {
+			if v, err := strconv.ParseInt(t, 10, 64); err == nil {
+				cfg.ValTokens = append(cfg.ValTokens, v)
+			}
+		}
+	}
+	cfg.Mutate = func(c *Chain, gs map[string]json.RawMessage) {
 		dg := disputetypes.DefaultGenesis()
 		dg.Params.TeamAddress = c.Acct("a6").Addr
 		gs[disputetypes.ModuleName] = c.App.AppCodec().MustMarshalJSON(dg)
-	}})
+	}
+	c, err := NewChain(cfg)
 	if err != nil {
 		return "err:newchain:" + shortLog(err.Error())
 	}
@@ -181,6 +193,14 @@ func runSettleHist(t *testing.T, in []string) string {
 
 func genSettleHist(r *Rng, i int, tier string) []string {
 	nv := 3 + r.Intn(2) // the last validator neither reports nor is disputed
+	// directed variant (1 in 5): v1 pays a fee from bond, is then pushed out of the bonded set (validator cap 2, a newcomer
+	// overtakes it), and the first dispute ends with a refund to a validator that is no longer bonded
+	directed := r.Chance(1, 5)
+	cfgMaxv, cfgTokens := "100", ""
+	if directed {
+		nv = 3
+		cfgMaxv, cfgTokens = "2", "1100000000,1000000000,990000000"
+	}
 	var ops []string
 	add := func(s string, a ...any) { ops = append(ops, fmt.Sprintf(s, a...)) }
 	tx := func(s string, a ...any) { add(s, a...); add("blk %d", r.Pick(1000, 1000, 1500)) }
@@ -208,13 +228,16 @@ func genSettleHist(r *Rng, i int, tier string) []string {
 	// fee payers: one or several, repeated payments, from balance or from bond (v1 is a reporter: bond = its selectors' stake)
 	payers := []string{"a3", "a4", "a5", "v1", "a2"}
 	first := payers[r.Intn(len(payers))]
+	if directed {
+		first = "v1"
+	}
 	full := r.Chance(1, 3)
 	fee := int64(1e12)
 	if !full {
 		fee = r.Pick(1000, 4000, 10000, 25000)
 	}
 	bond := func(p string) int64 {
-		if p == "v1" && r.Chance(1, 2) {
+		if p == "v1" && (directed || r.Chance(1, 2)) {
 			return 1
 		}
 		return 0
@@ -236,11 +259,25 @@ func genSettleHist(r *Rng, i int, tier string) []string {
 	votes := func(id int) {
 		n := r.Intn(6)
 		for j := 0; j < n; j++ {
-			tx("vote %s %d %s", voters[r.Intn(len(voters))], id, r.PickS("s", "s", "a", "i"))
+			ch := r.PickS("s", "s", "a", "i")
+			if directed && id == 1 {
+				ch = r.PickS("s", "i", "i")
+			}
+			tx("vote %s %d %s", voters[r.Intn(len(voters))], id, ch)
 		}
 	}
 	votes(1)
 	id := 1
+	// a second, major dispute on v1's own report: all of v1's stake is escrowed, its validator falls out of the bonded set, and a
+	// fee v1 paid from bond for the first dispute is later refunded to a validator that is no longer bonded
+	if directed {
+		tx("del a5 v2 %d", r.Pick(20000000, 30000000)) // v2 overtakes v1: v1 leaves the bonded set
+	}
+	if r.Chance(1, 6) {
+		id++
+		tx("disp %s R1 3 %d 0", r.PickS("a5", "a3", "a2"), int64(1e12))
+		votes(id)
+	}
 	// up to two further rounds when the first tally leaves the dispute unresolved
 	for round := 0; round < 3; round++ {
 		add("blk %d", r.Pick(2*86400000+1000, 3*86400000+1000, 86400000))
@@ -280,5 +317,5 @@ func genSettleHist(r *Rng, i int, tier string) []string {
 		}
 	}
 	add("blk 1000")
-	return []string{fmt.Sprint(nv), strings.Join(ops, ";")}
+	return []string{fmt.Sprint(nv), strings.Join(ops, ";"), cfgMaxv, cfgTokens}
 }
